@@ -463,6 +463,10 @@ func (s *Server) handlePostHandoff(w http.ResponseWriter, r *http.Request) {
 	if err != nil {
 		Error(w, r, fmt.Errorf("invalid node id"), http.StatusBadRequest)
 		return
+	} else if nodeID == 0 {
+		// Zero is what a connection without a node id is recorded as.
+		Error(w, r, fmt.Errorf("node id required"), http.StatusBadRequest)
+		return
 	}
 
 	// Request handoff from the store. This can fail if the node is not connected.
